@@ -20,7 +20,7 @@ LEVEL = 'fault_enumeration'
 BASES = [('plain', 'latin_1', False), ('plain', 'cp500', False), ('plain', 'latin_1', True), ('plain', 'cp864', False),
          ('pds', 'latin_1', False), ('pds', 'cp500', True), ('icc', 'latin_1', False), ('icc', 'cp500', False),
          ('de43', 'latin_1', False), ('typed', 'latin_1', False), ('typed', 'cp500', False), ('typed', 'ascii', True),
-         ('gen', 'latin_1', False), ('min', 'latin_1', False),
+         ('gen', 'latin_1', False), ('min', 'latin_1', False), ('maxvar', 'latin_1', False), ('maxvar', 'cp500', True),
          ('z_de2', 'latin_1', False), ('z_pds', 'latin_1', False), ('z_icc', 'cp500', False), ('z_all', 'latin_1', False),
          ('z_all', 'cp500', True)]
 
